@@ -10,7 +10,7 @@ PROOF_MODULES = []   # the C31 files are compiled directly (see the report); not
 OBLIGATIONS = [
     "C31/P_mul_spec.v", "C31/P_pow_spec.v", "C31/P_step_list.v", "C31/P_invert_spec.v", "C31/P_invert_congruence.v",
     "C31/P_log_spec.v", "C31/P_atan_spec.v", "C31/P_atanh_spec.v", "C31/P_exp_spec.v", "C31/P_nthroot_spec.v",
-    "C31/P_sinh_cosh_spec.v", "C31/P_sin_cos_spec.v", "C31/P_tan_tanh_spec.v", "C31/P_asin_asinh_spec.v", "C31/P_lambertw_spec.v", "C31/P_compose.v", "C31/P_ode_unique.v", "C31/P_refuted.v", "C31/P_nonvacuous.v",
+    "C31/P_sinh_cosh_spec.v", "C31/P_sin_cos_spec.v", "C31/P_tan_tanh_spec.v", "C31/P_asin_asinh_spec.v", "C31/P_lambertw_spec.v", "C31/P_compose.v", "C31/P_visitor_sound.v", "C31/P_ode_unique.v", "C31/P_refuted.v", "C31/P_nonvacuous.v",
 ]
 
 KEY_OF_TAG = {
